@@ -144,11 +144,16 @@ static CaseResult run_case(Tape &t, const dif::CaseOpt &opt = dif::CaseOpt())
 			HonestS &h = hs[mine[t.below((uint32_t)mine.size())]];
 			scn::ScriptClient &own = E.S(h.src).sc;
 			uint8_t hh[16]; ref::login_hash(own.password, own.challenge + 1, hh);
-			Bytes full = refproto::raw_frame(h.raw && t.chance(1, 2) ? 3 : 1, own.userid, Bytes(hh, hh + 16));
+			static const int FC_RAW[] = {3, 2, 1}, FC_DNS[] = {1, 2};
+			int fc = h.raw ? FC_RAW[t.pick({2, 3, 1})] : FC_DNS[t.pick({2, 1})];
+			Bytes body = fc == 2 ? refproto::zcompress(scn::tun_packet(E.s->server_tun_ip(), h.tun_ip, t.bytes_of(40), 5)) : Bytes(hh, hh + 16);
+			Bytes full = refproto::raw_frame(fc, own.userid, body);
 			size_t cut = t.chance(1, 2) ? 3 : 3 + t.below(17);
+			cut = std::min(cut, full.size() - 1);
+			bool stale_copy = t.chance(1, 2);   // plain runs: the receive buffer still holds the rest of the complete frame
 			Bytes part(full.begin(), full.begin() + cut), rest(full.begin() + cut, full.end());
-			{ dif::ScopedResidue sr(opt, rest); own.send_raw(part); sim::W.run_for(3000); }
-			what = fmt("raw frame of session user %d cut after %zu bytes", own.userid, cut); ms.hit("rawframe:cut-short");
+			{ dif::ScopedResidue sr(opt, rest, stale_copy); own.send_raw(part); sim::W.run_for(3000); }
+			what = fmt("raw frame (command %d) of session user %d cut after %zu bytes%s", fc, own.userid, cut, stale_copy ? ", rest still in the buffer" : ""); ms.hit("rawframe:cut-short");
 			break;
 		}
 		default: {  // tunnel command letter followed by arbitrary bytes
